@@ -178,16 +178,21 @@ def iteration (b : Backend σ) (sp : Space) (obj : Obj) (c : Call) (i : Nat) (d 
   let cs3 := { cs2 with pbar := pbarUpdate c cs2.pbar score pos i, nIterSearch := cs2.nIterSearch + 1 }
   pure ({ d3 with iterT := d3.iterT ++ [d3.clock - t0] }, cs3)
 
-/-- `search_step(nth_iter)`: three consecutive `if`s, exactly as written -/
-def searchStep (b : Backend σ) (sp : Space) (obj : Obj) (c : Call) (i : Nat) (d : DState σ) (cs : CState) :
+/-- the second and third `if` of `search_step` -/
+def stepTail (b : Backend σ) (sp : Space) (obj : Obj) (c : Call) (i : Nat) (d1 : DState σ) (cs1 : CState) :
     Except Err (DState σ × CState) := do
-  let (d1, cs1) ← if i < cs.nInitsNorm then initialization b sp obj c i d cs else pure (d, cs)
   let (d2, cs2) ←
     if i = cs1.nInitSearch then do
       let bst ← b.finishInit d1.bst
       pure ({ d1 with bst := bst, trace := d1.trace ++ [Ev.finishInit] }, cs1)
     else pure (d1, cs1)
   if cs2.nInitSearch ≤ i ∧ i < c.nIter then iteration b sp obj c i d2 cs2 else pure (d2, cs2)
+
+/-- `search_step(nth_iter)`: three consecutive `if`s, exactly as written -/
+def searchStep (b : Backend σ) (sp : Space) (obj : Obj) (c : Call) (i : Nat) (d : DState σ) (cs : CState) :
+    Except Err (DState σ × CState) := do
+  let (d1, cs1) ← if i < cs.nInitsNorm then initialization b sp obj c i d cs else pure (d, cs)
+  stepTail b sp obj c i d1 cs1
 
 /-- `self.stop.check()` after a step (`stop.update` has been fed the running best and the whole `score_l`) -/
 def checkStop (c : Call) (d : DState σ) (cs : CState) : Except Err Bool :=
